@@ -72,7 +72,10 @@ def run_case(part, spec, rec, pid):
         if type(e).__module__.startswith('hypothesis'):
             raise
         inner_repo, last = core.lib_frames(e.__traceback__)
-        if inner_repo is not None and not os.path.realpath(last.filename).startswith(HERE + os.sep):
+        # (frames of compiled extension code carry relative file names such as numpy/random/mtrand.pyx, which
+        # realpath would resolve under the current directory: only absolute paths can be harness code)
+        if inner_repo is not None and not (os.path.isabs(last.filename) and
+                                           os.path.realpath(last.filename).startswith(HERE + os.sep)):
             # an exception the oracle did not anticipate, raised from inside the library under test
             v = Violation('uncaught/%s/%s:%s' % (type(e).__name__, os.path.basename(inner_repo.filename),
                                                   inner_repo.name),
